@@ -31,7 +31,7 @@ COMPONENTS = {
     "model": ["contact kinematics of the same System evaluated by the harness at stored / recorded states; 'closed' decided by the harness from the gap, never read from the solver's active set"],
 }
 ASSUMPTIONS = [
-    "isotropic Coulomb friction, e_F = 0",
+    "isotropic Coulomb friction; tangential restitution e_F only on sphere-plane contacts (Moreau, RATTLE, DualStormerVerlet)",
     "energy clause only for scenes whose contacts share one restitution coefficient (Newton's law may increase energy term-wise for different e_i in simultaneous impacts)",
     "sessions in which the solver reports non-convergence are discards",
 ]
@@ -65,6 +65,13 @@ def gen(rng, tier, index):
             "alpha": float(rng.choice([0.0, rng.uniform(0.02, 0.15)])),
             "phase": float(np.pi / 2) if rng.random() < 0.8 else 0.0,  # mostly starting from rest (resting spheres stay consistent)
         }
+    if not free and name != "BackwardEuler" and rng.random() < 0.3:
+        # tangential restitution on sphere-plane contacts (the slip of the discrete friction law is then the restituted one)
+        for co in scene["contacts"]:
+            if co["type"] == "s2p" and co["mu"] > 0 and rng.random() < 0.7:
+                co["eF"] = float(rng.choice([0.2, 0.5, 1.0]))
+    if not free and x < 0.3:
+        pass
     elif name == "Moreau" and x < 0.55:
         # the unit system is the user's: the same scene in milligrams or tonnes (Moreau measures convergence in
         # velocities, which do not change; percussions scale with the masses)
@@ -101,6 +108,7 @@ def monitor(R, out, log, plan):
     contacts = B.contacts
     mu = np.array([co["mu"] for co in B.scene["contacts"]])
     eN = s.e_N
+    eF = s.e_F
     ftol = opt.fixed_point_atol + opt.fixed_point_rtol * (1 + float(np.max(np.abs(u))))
     ntol = opt.newton_atol + opt.newton_rtol
     pos_level = name in ("Rattle", "BackwardEuler")
@@ -175,11 +183,16 @@ def monitor(R, out, log, plan):
             i = int(np.argmax(active & (np.abs(g) > tol_g)))
             bad("signorini_complementarity", f"{name}/position/{type(contacts[i]).__name__}", f"step {k}: P_N={P[i]:.3e} with gap {g[i]:.3e}")
             return
-        # -------- friction
+        # -------- friction: the slip of the discrete law is the Newton-restituted one, gamma_F+ + e_F gamma_F-
+        # (BackwardEuler has no tangential restitution; e_F is only generated for the other three)
         if pos_level:
             gF = s.gamma_F(t[k], q[k], u[k])
+            if name == "Rattle" and np.any(eF != 0):
+                gF = gF + eF * s.gamma_F(t[k - 1], q[k - 1], u[k - 1])
         else:
             gF = s.gamma_F(tc, qc, u[k])
+            if np.any(eF != 0):
+                gF = gF + eF * s.gamma_F(tc, qc, u[k - 1])
         for i, c in enumerate(contacts):
             closed_i = bool(active[i])
             if not hasattr(c, "la_FDOF") or mu[i] == 0:
@@ -237,6 +250,8 @@ def monitor(R, out, log, plan):
         out["probes"]["moving_plane_session"] += 1
     if B.scene.get("mass_scale"):
         out["probes"]["rescaled_masses_session"] += 1
+    if np.any(eF != 0):
+        out["probes"]["tangential_restitution_session"] += 1
     out["worst"] = worst
     return ["".join(m)[:12] for m in modes]
 
